@@ -110,14 +110,14 @@ func hasPointers(t types.Type) bool {
 }
 
 type provEnv struct {
-	p          *Program
-	memo       map[ssa.Value]*provInfo
-	visiting   map[ssa.Value]bool
-	fresh      map[*ssa.Function]bool // returnsFresh summaries
+	p        *Program
+	memo     map[ssa.Value]*provInfo
+	visiting map[ssa.Value]bool
+	fresh    map[*ssa.Function]bool // returnsFresh summaries
 	// retParams: for a function whose returned pointerful values are rooted only
 	// in fresh memory and in its own parameters, the indices of those parameters
 	// (append-style helpers return their destination argument, not their source)
-	retParams map[*ssa.Function]map[int]bool
+	retParams  map[*ssa.Function]map[int]bool
 	cellStores map[ssa.Value][]ssa.Value
 }
 
